@@ -2182,6 +2182,20 @@ def normalize_module(tree: ast.Module, extern=None) -> ast.Module:
                 scal[k] = v
     if scal:
         tree = _ConstInline(scal).visit(tree)
+    if coll:
+        # s.startswith(NAMES) / s.endswith(NAMES) with a module-level tuple
+        # of strings -> the tuple itself (split into alternatives below)
+        for c in ast.walk(tree):
+            if isinstance(c, ast.Call) and isinstance(
+                    c.func, ast.Attribute) and c.func.attr in (
+                    "startswith", "endswith") and len(c.args) == 1 and \
+                    isinstance(c.args[0], ast.Name) and \
+                    c.args[0].id in coll and isinstance(
+                        coll[c.args[0].id], ast.Tuple) and all(
+                        isinstance(e, ast.Constant) and isinstance(
+                            e.value, str) for e in coll[c.args[0].id].elts):
+                c.args[0] = ast.copy_location(clone(coll[c.args[0].id]),
+                                              c.args[0])
     _restore_anchor_names(tree)
     _inline_decorators(tree)
     _inline_contextmanagers(tree)
